@@ -689,6 +689,7 @@ def unit_programs3(ctx):
 
 
 DIFFS = ["shift-one-cell", "shift-half-cell", "other-n", "other-cell", "nm-scale-single-cell-axis-vs-two-cells",
+         "same-box-other-dimension-names",
          "nvdim-2-vs-3", "nvdim-3-vs-4", "nvdim-2-vs-4"]
 REFUSE_OPS = ["add", "sub", "mul", "div", "pow", "matmul", "and", "lshift", "dot", "cross", "angle", "npadd", "npmul",
               "nppow"]
@@ -720,6 +721,12 @@ def unit_refuse(ctx):
             n2 = list(n)
             n2[0] = n[0] + 1
             mesh2 = make_mesh(meshname, n=n2)
+        elif diff == "same-box-other-dimension-names":
+            # identical corners and counts, but the axes are called differently (renamed / permuted names): another mesh
+            alt = {1: ("q",), 2: ("y", "x"), 3: ("z", "x", "y"), 4: ("x3", "x0", "x1", "x2")}[ndim]
+            if tuple(mesh.region.dims) == alt:
+                alt = tuple(reversed(alt)) if ndim > 1 else ("r",)
+            mesh2 = df.Mesh(region=df.Region(p1=tuple(mesh.region.pmin), p2=tuple(mesh.region.pmax), dims=alt), n=n)
         elif diff == "nm-scale-single-cell-axis-vs-two-cells":
             # same nanometre-sized region, one mesh has ONE cell along the last axis, the other TWO: the arrays would
             # broadcast and every cell size is below any absolute tolerance of order 1e-8
@@ -772,7 +779,8 @@ def unit_reuse(ctx):
     partner = ctx.choose("partner", ["field", "constant-vector", "number"]) if op in BINARY else None
     k = ctx.choose("nvdim", [3, 1])
     change = ctx.choose("change", ["array[cell] = v", "array[...] *= -3", "array = new", "update_field_values",
-                                   "partner.array[...] += 1"])
+                                   "partner.array[...] += 1", "result relabelled: result.vdims = new names",
+                                   "result overwritten: result.array[...] = 0, result.valid[...] = False"])
     first = ctx.choose("first", ["same-expression", "norm+orientation", "nothing"])
     mesh = make_mesh(ctx.choose("mesh", ["3d-122"] if ctx.tier == "quick" else ["3d-122", "1d-2", "2d-21", "4d-2112"]))
     n = tuple(int(i) for i in mesh.n)
@@ -795,6 +803,36 @@ def unit_reuse(ctx):
             return call(op, Val("A", "F", x), None if y is None else Val("B", "F" if isinstance(y, df.Field) else "N", y))
 
     inst = ctx.key()
+    if change.startswith("result"):
+        # "Evaluation leaves every operand's values, validity, labels and mesh unmodified" - also when the RESULT is
+        # relabelled or overwritten afterwards: a result is its own object
+        raised, res = C.raises(ev, fa, other)
+        if raised or not isinstance(res, df.Field):
+            raise engine.Skip()
+        snaps = [C.field_snap(fa)] + ([C.field_snap(other)] if isinstance(other, df.Field) else [])
+        labs = (list(fa.vdims) if fa.vdims else None, dict(fa.vdim_mapping))
+        ctx.step(2, f"{op}; {change}")
+        try:
+            if change.startswith("result relabelled"):
+                if res.nvdim > 1:
+                    res.vdims = [f"w{i}" for i in range(res.nvdim)]
+                    res.vdim_mapping = {}
+            else:
+                res.array[...] = 0.0
+                res.valid[...] = False
+        except Exception as e:
+            ctx.note(f"result-change-refused:{type(e).__name__}")
+        ctx.check(2)
+        now = [C.field_snap(fa)] + ([C.field_snap(other)] if isinstance(other, df.Field) else [])
+        if now != snaps or (list(fa.vdims) if fa.vdims else None, dict(fa.vdim_mapping)) != labs:
+            ctx.fail(f"{op}/reuse/operand-changed-through-its-result", f"after '{change}' the operand has vdims {fa.vdims} "
+                     f"mapping {fa.vdim_mapping} (was {labs})", instance=inst)
+            return
+        raised, again = C.raises(ev, fa, other)
+        if raised:
+            ctx.fail(f"{op}/reuse/operand-unusable-after-its-result-was-changed", f"{type(again).__name__}: {str(again)[:140]}",
+                     instance=inst)
+        return
     try:
         if first == "same-expression":
             ctx.step(1, f"first {op}")
